@@ -84,9 +84,19 @@ func runC12(c *Ctx, idx int, o *Obs) {
 	}
 	k := 1 + r.Intn(6)
 	var alphabet []string
+	style := gen.Pick(r, "ident", "ident", "numeric", "case")
 	for i := 0; i < k; i++ {
-		alphabet = append(alphabet, gen.Pick(r, "s", "st", "Z")+strconv.Itoa(i))
+		switch style {
+		case "numeric":
+			// integers of one to three digits: their numeric and lexicographic orders differ
+			alphabet = append(alphabet, strconv.Itoa([]int{2, 10, 4, 100, 33, 7}[i]))
+		case "case":
+			alphabet = append(alphabet, []string{"b", "A", "a", "B", "aa", "Ab"}[i])
+		default:
+			alphabet = append(alphabet, gen.Pick(r, "s", "st", "Z")+strconv.Itoa(i))
+		}
 	}
+	o.AddSet("state_label_styles", style)
 	sort.Strings(alphabet)
 	aidx := map[string]int{}
 	for i, a := range alphabet {
